@@ -203,17 +203,19 @@ let has_api prog = List.exists (function SApi _ -> true | _ -> false) prog
    read off the lowered model (validation verdict, propagator-level findings of C05) *)
 let known_class (prog : stmt list) : string =
   let cs = posted prog in
-  let decl_store = List.filter_map (function Decl d -> Some (zlist d) | Def _ -> None) (user_vars prog) in
-  let aux_bad c =
-    if has_api prog
-    then enumerate (user_vars prog) (fun a -> not (win_cons (stored c) a)) <> []
-    else kf_aux_bounds c decl_store in
-  let lowered = lower (build prog) in
+  let m = build prog in
+  let lowered = lower m in
   let low_has f = match lowered with LOk (_, ps) -> List.exists f ps | LPanic -> false in
+  (* outside the in-range condition (doms_nonempty) of lower_denotes: an auxiliary variable whose computed
+     range exceeds MAX_SPARSE_SET_DOMAIN_SIZE is represented by the empty domain (Model/Lower.v aux_dom),
+     i.e. an empty domain of a variable that is not a handle of the program; the validator answers
+     InvalidDomain (known_findings.txt: C02 class oversize_domain) *)
+  let users = List.map int_of_nat m.muser in
+  let aux_oversize s = List.exists (fun (i, d) -> d = [] && not (List.mem i users)) (List.mapi (fun i d -> (i, d)) s) in
   if lowered = LPanic then "BAD:empty_domain_panic "
+  else if (match lowered with LOk (s, ps) -> validate s ps = Some EInvalidDomain && aux_oversize s | LPanic -> false) then "BAD:oversize_domain "
   else if List.exists (fun c -> kf_or_not (fold_cons c)) cs then "BAD:or_not "
   else if List.exists kf_nested_ne cs then "BAD:nested_ne "
-  else if List.exists aux_bad cs then "BAD:aux_bounds "
   else if (match lowered with LOk (s, ps) -> validate s ps = Some EInvalidConstraint | LPanic -> false) then "BAD:mod_rejected "
   else if low_has (function PLinEq (c, x, _) | PLinLe (c, x, _) -> all_zero c x | _ -> false) then "BAD:lin_zero_coeffs "
   else if (match lowered with LOk (s, ps) -> List.exists (mod_sign_risk s) ps | LPanic -> false) then "BAD:modulo_prop "
